@@ -37,6 +37,7 @@ def required(tier):
         "grammar.tag.hidden-leftrec": 3,
         "grammar.tag.right-nulled": 3,
         "grammar.overlap": 3,
+        "lex.tree_sets_compared": 200,
     }
 
 
@@ -45,6 +46,9 @@ def run(ctx):
     mon.install()
     maxlen = 5 if ctx.tier == "quick" else 6
     try:
+        for i, (name, g) in enumerate(cfg.LEX_CORPUS):
+            if ctx.mine(i) and not g.cyclic():
+                lex_grammar(ctx, mon, name, g)
         for name, g, alphabet in glrwork.grammar_stream(ctx, acyclic=True, tiny=(ctx.tier == "thorough"), eps_weights=(1, 2, 3, 3)):
             if not ctx.more():
                 break
@@ -53,6 +57,41 @@ def run(ctx):
         mon.uninstall()
     for k, v in mon.totals.items():
         ctx.count("gss." + k, v)
+
+
+def lex_grammar(ctx, mon, name, g):
+    """Tokens of different lengths, some spanning layout: complete tree sets (leaf spans are raw positions)."""
+    text = g.text()
+    ctx.count("grammar.lex_corpus")
+    for tables in ("LALR", "SLR"):
+        pg = pgx.grammar(text)
+        parser = pgx.glr(pg, tables=pgx.LALR if tables == "LALR" else pgx.SLR)
+        pkeys = pgx.prod_keys(pg)
+        for w in cfg.all_strings(cfg.LEX_ALPHABET, 6 if ctx.tier == "quick" else 7):
+            chart = cfg.Chart(g, w)
+            if not chart.is_sentence():
+                continue
+            refcount = chart.count()
+            if refcount == cfg.INF or refcount > 300:
+                continue
+            case = {"grammar": text, "g": g.to_json(), "tables": tables, "input": w, "lex": True}
+            try:
+                with pgx.watchdog(30):
+                    o = glrobs.parse_glr(parser, w)
+            except (pgx.CaseTimeout, pgx.BudgetExceeded):
+                ctx.inconc("lex timeout")
+                continue
+            ctx.case((text, tables, w), refcount >= 2, sample={"grammar": text, "tables": tables, "input": w, "derivations": str(refcount)})
+            if o.kind != "forest" or o.loop:
+                ctx.violation("sentence-rejected", case, "%s for a sentence with %s derivations" % (o.kind, refcount), known=findings.lost_derivations_known(g, mon) if o.kind == "syntax" else None)
+                continue
+            ref_forms = set(pgx.ref_tree_form(t, g) for t in chart.trees())
+            got_forms, _ = glrobs.forest_forms(o.forest, pkeys, 3000)
+            ctx.count("tree_sets_compared")
+            ctx.count("lex.tree_sets_compared")
+            lost = ref_forms - set(got_forms)
+            if lost:
+                ctx.violation("tree-missing", case, "%d of %d derivation trees cannot be obtained from the forest, e.g. %s" % (len(lost), len(ref_forms), str(sorted(lost, key=str)[0])[:300]), known=findings.lost_derivations_known(g, mon))
 
 
 def one_grammar(ctx, mon, name, g, alphabet, maxlen):
@@ -163,6 +202,17 @@ def replay(case, ctx):
     try:
         pg = pgx.grammar(case["grammar"])
         parser = pgx.glr(pg, tables=pgx.LALR if case["tables"] == "LALR" else pgx.SLR)
+        if case.get("lex"):
+            chart = cfg.Chart(g, case["input"])
+            o = glrobs.parse_glr(parser, case["input"])
+            if o.kind != "forest":
+                ctx.violation("sentence-rejected", case, o.kind)
+            else:
+                ref_forms = set(pgx.ref_tree_form(t, g) for t in chart.trees())
+                got_forms, _ = glrobs.forest_forms(o.forest, pgx.prod_keys(pg), 3000)
+                if ref_forms - set(got_forms):
+                    ctx.violation("tree-missing", case, "%d trees missing" % len(ref_forms - set(got_forms)))
+            return
         check_input(ctx, mon, g, pg, parser, pgx.prod_keys(pg), case, case["input"])
     finally:
         mon.uninstall()
